@@ -48,6 +48,11 @@ LABEL_KEYS = ['day', 'meal', 'cat', 'n']
 LABEL_VALS = {'day': ['mon', 'tue', 'wed'], 'meal': ['lunch', 'dinner'], 'cat': ['a', 'b', 'c', ''],
               'n': [1, 1.0, True, 2, 0, False]}
 JUNK = ['str', 'none', 'zero', 'dict', 'list']
+# task names: plain ones, and names with dots, with the suffixes of valjean's own helper tasks
+# (<name>.stats, <name>.stats.eval, .eval), names of diagnostics helpers, odd ones
+ODD_TASK_NAMES = ['mesh.stats', 'tripoli.stats', 'x.stats.eval', 'run.eval', 'stats', '.stats', 'a.b.c',
+                  'task_stats', 'test_stats', 'test_stats_by_labels', 'name.stats.stats', 'stats.eval',
+                  'equal.stats', 'delays.stats.eval', 'report', 'index', '', ' ', 'x.STATS', 'a/b', 'é.stats']
 
 
 def gen_labels(rng):
@@ -72,7 +77,8 @@ def gen_case(rng):
     nojunk = rng.random() < 0.7
     tasks = []
     for k in range(ntasks):
-        tname = rng.choice(tnames) if rng.random() < 0.3 else f'task{k}'
+        r0 = rng.random()
+        tname = rng.choice(tnames) if r0 < 0.25 else rng.choice(ODD_TASK_NAMES) if r0 < 0.5 else f'task{k}'
         status = 'DONE' if allgood or rng.random() < 0.5 else rng.choice(STATUSES)
         r = rng.random()
         if r < (0.03 if allgood else 0.15):
@@ -96,7 +102,16 @@ def gen_case(rng):
         pool = LABEL_KEYS + (['_result', '_test_name'] if rng.random() < 0.15 else []) \
             + (['absent'] if rng.random() < 0.08 else [])
         selections.append(rng.sample(pool, min(n, len(pool))))
-    return {'tasks': tasks, 'by_labels': selections}
+    # groups of tests created with the IDENTICAL labels dictionary object (labels=common_labels), with
+    # different verdicts: one or two common dictionaries given to most tests of the collection
+    share = rng.random() < 0.35
+    if share:
+        commons = [c for c in (gen_labels(rng) for _ in range(rng.choice([1, 2]))) if c is not None]
+        for _tname, _status, result in tasks:
+            for spec in result or ():
+                if spec[0] != 'junk' and commons and rng.random() < 0.8:
+                    spec[3] = [list(kv) for kv in rng.choice(commons)]
+    return {'tasks': tasks, 'by_labels': selections, 'share_labels': share}
 
 
 CORPUS = [
@@ -126,6 +141,9 @@ CORPUS = [
 
 # ---------------------------------------------------------------------------
 
+CALLER_LABELS = []
+
+
 def make_objects(case):
     from valjean.cosette.task import TaskStatus
     from valjean.gavroche.test import Test, TestResult
@@ -145,6 +163,8 @@ def make_objects(case):
 
     junk = {'str': 'not a test', 'none': None, 'zero': 0, 'dict': {'x': 1}, 'list': []}
     task_results = []
+    shared = {}              # label content -> the one dictionary object given to every test with these labels
+    CALLER_LABELS.clear()    # (dictionary object given by the caller, its items at that time)
     for tname, status, result in case['tasks']:
         tres = {'status': TaskStatus[status]}
         if result is not None:
@@ -154,6 +174,10 @@ def make_objects(case):
                     items.append(junk[spec[1]])
                     continue
                 labels = None if spec[3] is None else dict((k, v) for k, v in spec[3])
+                if labels is not None and case.get('share_labels'):
+                    labels = shared.setdefault(repr(sorted(labels.items(), key=repr)), labels)
+                if labels is not None:
+                    CALLER_LABELS.append((labels, list(labels.items())))
                 if spec[0] == 'fake':
                     items.append(FakeResult(FakeTest(name=spec[2], labels=labels), spec[1]))
                 else:
@@ -282,6 +306,7 @@ def run_impl(ctx, case, steps):
         dic['_test_name'] = it.test.name
         dic['_result'] = 0 if it else 1
         ldicts.append(dic)
+    overall = None if classify is None else (len(classify.get('SUCCESS', [])), len(classify.get('FAILURE', [])))
     for by_labels in case['by_labels']:
         ctx.count('by_labels_%d' % len(by_labels))
         zbl = clist([cz(codes.key(k)) for k in by_labels])
@@ -341,6 +366,22 @@ def run_impl(ctx, case, steps):
         nontrivial = nontrivial or len(got) > 1
         if missing:
             ctx.count('by_labels_with_missing')
+        # the by-labels successes / failures are those of the overall test summary (all of them when no
+        # result lacks a label)
+        if overall is not None:
+            sok, sko = sum(r['OK'] for r in res.classify), sum(r['KO'] for r in res.classify)
+            if sok > overall[0] or sko > overall[1] or (missing == 0 and (sok, sko) != overall):
+                ctx.oracle_failure(f'by {by_labels}: {sok} successes / {sko} failures over the rows, the overall test '
+                                   f'summary has {overall[0]} / {overall[1]} ({missing} results lack a label) :: {case}',
+                                   case, key='bylabels-vs-overall')
+    # the summaries never write into the dictionaries the caller gave as labels
+    for dic, items in CALLER_LABELS:
+        if list(dic.items()) != items:
+            ctx.oracle_failure(f'a labels dictionary given by the caller was modified: {items} -> {dict(dic)} '
+                               f':: {case}', case, key='caller-labels-modified')
+            break
+    if case.get('share_labels'):
+        ctx.count('collections_with_shared_labels_objects')
     return nontrivial
 
 
@@ -406,7 +447,7 @@ def run_exhaustive(ctx, shards):
     ncoll = 0
     for tasks in exh_collections(max_tasks, max_total, junk_total):
         ncoll += 1
-        case = {'exhaustive': True, 'tasks': tasks, 'by_labels': selections}
+        case = {'exhaustive': True, 'tasks': tasks, 'by_labels': selections, 'share_labels': ncoll % 2 == 0}
         steps = []
         run_impl(ctx, case, steps)
         tests = [st for st in steps if st[1] == 'tests']
@@ -422,7 +463,8 @@ def run_exhaustive(ctx, shards):
     for n in range(4):
         for seq in itertools.product(STATUSES, repeat=n):
             nstat += 1
-            case = {'exhaustive': True, 'tasks': [[f't{k}', st, None] for k, st in enumerate(seq)], 'by_labels': []}
+            names = ODD_TASK_NAMES[nstat % 7:] + ODD_TASK_NAMES       # names with dots / helper suffixes, rotating
+            case = {'exhaustive': True, 'tasks': [[names[k], st, None] for k, st in enumerate(seq)], 'by_labels': []}
             steps = []
             run_impl(ctx, case, steps)
             tsteps += [st for st in steps if st[1] == 'tasks']
